@@ -305,6 +305,10 @@ func EncodeRemainLength(r io.ByteReader) (int, error) {
 			break
 		}
 		multiplier += 7
+		if multiplier > 21 {
+			// a variable byte integer has at most 4 bytes
+			return 0, codes.ErrMalformed
+		}
 	}
 	return int(vbi), nil
 }
